@@ -1060,7 +1060,6 @@ func removeUnicode(value string) string {
 		}
 		character = "\\u" + character
 		translatedChar, err := strconv.Unquote(`"` + character + `"`)
-		translatedChar = strings.TrimSpace(translatedChar)
 		if err != nil {
 			return ""
 		}
